@@ -29,13 +29,13 @@ theorem conn_limit_respected_fails : ¬ ∀ m0 ops, ConnLimitRespected m0 ops :=
   have := (h 1000 [.credit 800, .post 0 800, .drop 0, .revise true 500]).1
   revert this; decide
 
-/-- … and what the unchanged code then does with that state: the next `credit` evaluates
-`max_data - sent_data` = 500 − 800 (panic in the dev profile while the lock is held, every later
-call panics on the poisoned mutex; in a release build the subtraction wraps and the limit is void). -/
-theorem no_panic_fails : ¬ ∀ m0 ops, (SendCtl.run m0 ops).poisoned = false := by
-  intro h
-  have := h 1000 [.credit 800, .post 0 800, .drop 0, .revise true 500, .credit 1]
-  revert this; decide
+/-- … and what the code does with that state after fix-C11-avaliable-saturating: `avaliable()` saturates,
+so the next `credit` hands out nothing (and reports DATA_BLOCKED once) until MAX_DATA has caught up with what
+was already charged.  Before the fix it evaluated `max_data - sent_data` = 500 − 800 unchecked: panic with the
+lock held in the dev profile, wrap-around = no limit at all in release (the former `no_panic_fails`). -/
+example : let s := SendCtl.run 1000 [.credit 800, .post 0 800, .drop 0, .revise true 500]
+    (s.step (.credit 1)).2 = .credit 0 (some 500) ∧ (s.step (.credit 1)).1.poisoned = false ∧
+    ((s.step (.maxdata 900)).1.step (.credit 200)).2 = .credit 100 (some 900) := by decide
 
 /-- Σ fresh bytes ≤ the limit in force, for EVERY history without a 0-RTT rejection: any number
 of `Credit` guards alive at once, any interleaving of `credit`/`post_sent`/drop/MAX_DATA/
@@ -91,11 +91,21 @@ theorem retransmit_free_conn (s : SendCtl) (k : Nat) :
     · simp
     · split <;> simp
 
-/-- No arithmetic panic / lock poisoning without a 0-RTT rejection (limits are varints). -/
-theorem no_panic_partial (m0 : Nat) (ops : List SendOp) (hm : m0 ≤ VARINT_MAX)
-    (h : ∀ op ∈ ops, op.NoReject ∧ op.Bounded) : (SendCtl.run m0 ops).poisoned = false :=
-  SendCtl.nopoison_foldl ops (SendCtl.init m0) h (SendCtl.acct_init m0) (by simp [SendCtl.init])
+/-- **no_panic**: no arithmetic panic / lock poisoning over ANY history — 0-RTT rejection, concurrent
+credits, `on_error` included (limits are varints, as everything that comes from MAX_DATA frames or transport
+parameters is).  A `post_sent` beyond the credit still panics in the caller, without touching the
+controller. -/
+theorem no_panic (m0 : Nat) (ops : List SendOp) (hm : m0 ≤ VARINT_MAX)
+    (h : ∀ op ∈ ops, op.Bounded) : (SendCtl.run m0 ops).poisoned = false :=
+  SendCtl.nopoison_foldl ops (SendCtl.init m0) h (SendCtl.acct_init m0)
     (by simpa [SendCtl.init] using hm) rfl
+
+example : (100 : Nat) ≤ VARINT_MAX ∧
+    ∀ op ∈ [SendOp.credit 80, .post 0 80, .drop 0, .revise true 50, .credit 1], op.Bounded := by
+  refine ⟨by decide, ?_⟩
+  intro op hop
+  simp only [List.mem_cons, List.mem_nil_iff, or_false] at hop
+  rcases hop with h | h | h | h | h <;> subst h <;> simp [SendOp.Bounded, VARINT_MAX]
 
 /-- The peer's limit as seen by the sender never decreases (no 0-RTT rejection). -/
 theorem send_limit_monotone (m0 : Nat) (ops : List SendOp) (op : SendOp)
@@ -303,7 +313,8 @@ example : ((RecvHalf.run true 100 [.rx 0 40 false]).rx true 5000 20 true).2 = .f
 
 `AOp` histories: peer STREAM frames, application reads (`poll_read` and `poll_next`), `Reader::stop`, dropping the `Reader`, RESET_STREAM
 from the peer.  `fixed = true` is the current tree (FIN-limit fix 36fc566 in); `rfix` is whether
-`Recv::recv_reset` compares the final size with the stream limit (current tree: it does not). -/
+`Recv::recv_reset` compares the final size with the stream limit (current tree, fix-C11-reset-limit: it
+does, `rfix = true`; the theorems that hold for both trees keep the parameter). -/
 
 /-- Data beyond the advertised stream limit is refused after EVERY history of frames, reads, `stop()`,
 reader drop and resets, as long as the stream is still known to the endpoint (`Recv` / `SizeKnown`;
@@ -374,40 +385,16 @@ def ResetOverLimitDetected (rfix : Bool) : Prop :=
     let r := Rcvr.run true rfix w ops
     r.live = true → final > r.half.msd → ∀ n, (r.reset rfix final).2 ≠ .sync n
 
-/-- FALSE of the current tree: limit 100, `RESET_STREAM(final_size = 5000)` is accepted in `Recv` and
-5000 bytes are handed to the connection-level controller. -/
-theorem reset_over_limit_detected_fails : ¬ ResetOverLimitDetected false := by
-  intro h
-  have := h 100 [] 5000 (by decide) (by decide) 5000
-  revert this; decide
+/-- What the fix excludes — the tree before fix-C11-reset-limit (`rfix = false`): limit 100,
+`RESET_STREAM(final_size = 5000)` was accepted in `Recv` and 5000 bytes were handed to the connection-level
+controller (the former `reset_over_limit_detected_fails`). -/
+example : ((Rcvr.run true false 100 []).reset false 5000).2 = .sync 5000 ∧
+    ((Rcvr.run true true 100 []).reset true 5000).2 = .flowControl := by decide
 
-/-- What the current tree does guarantee: once the size is known such a reset is a FINAL_SIZE_ERROR, and
-in `Recv` the whole remainder up to the claimed final size is charged to the connection, so the
-connection-level limit still bounds it. -/
-theorem reset_over_limit_detected_partial (rfix : Bool) (w : Nat) (ops : List AOp) (final : Nat) :
-    let r := Rcvr.run true rfix w ops
-    r.rst = none → final > r.half.msd →
-      (∀ fs, r.half.phase = .sizeKnown fs → (r.reset false final).2 = .finalSize) ∧
-      (r.half.phase = .recv →
-        (r.reset false final).2 = .sync (final - r.half.largest) ∧
-        (r.reset false final).1.charged = r.charged + (final - r.half.largest)) := by
-  intro r hr ho
-  have hi : r.Inv := Rcvr.inv_foldl rfix ops (Rcvr.mk0 w) (Rcvr.inv_mk0 w)
-  have hb := hi.bnd.2
-  constructor
-  · intro fs hph
-    simp only [hph] at hb
-    unfold Rcvr.reset
-    simp only [hr, Option.isSome_none, Bool.false_eq_true, ↓reduceIte, hph]
-    have : final ≠ fs := by omega
-    simp [this]
-  · intro hph
-    simp only [hph] at hb
-    unfold Rcvr.reset
-    simp only [hr, Option.isSome_none, Bool.false_eq_true, ↓reduceIte, hph]
-    have : ¬ final < r.half.largest := by omega
-    simp [this]
-
+/-- **reset_over_limit_detected** — the current tree, every history of frames, reads, `stop()`, reader drop
+and resets: while the stream is still known to the endpoint, a RESET_STREAM whose final size lies beyond the
+advertised stream limit is never accepted (FLOW_CONTROL_ERROR in `Recv`, FINAL_SIZE_ERROR in `SizeKnown`,
+where the known final size is within the limit). -/
 theorem reset_over_limit_detected : ResetOverLimitDetected true := by
   intro w ops final r hl ho n
   have hi : r.Inv := Rcvr.inv_foldl true ops (Rcvr.mk0 w) (Rcvr.inv_mk0 w)
